@@ -92,7 +92,7 @@ CHECKS['C04'] = dict(
    note=PROTO_NOTE + ' The schedule-independent credit bound over the network fragment is not proved (partial).',
    technique='Coq proof (local flow-control lemmas) + differential correspondence + pipeline-mode exploration', ref='§5, §6 C04')
 CHECKS['C06'] = dict(
-   text='Theorems: eviction on CLOSE and after CONN_TIMEOUT, adoption of the id consumers ask for, acceptance of newer ids, required outputs are waited for; no lost registration at the receiver (C06_no_lost_registration), the request that was still missing opens the gate and an open gate publishes (C06_last_request_opens_gate, C06_open_gate_publishes), a waiting consumer re-asks every source at every poll timeout (C06_waiting_consumer_asks); the connection handshake step by step (C06_first_contact_not_counted, C06_owed_hello_is_paid, C06_hello_marks_source_heard, C06_heard_consumer_is_registered); machines compared with the real classes; '
+   text='Theorems: eviction on CLOSE and after CONN_TIMEOUT, adoption of the id consumers ask for, acceptance of newer ids, required outputs are waited for - in the table as pruned by the very request, and a required output that closes takes the decision with it (C06_required_output_waited_for, C06_required_output_close_closes_gate; both after repairs 0e63164 / 4c4b712); no lost registration at the receiver (C06_no_lost_registration), the request that was still missing opens the gate and an open gate publishes (C06_last_request_opens_gate, C06_open_gate_publishes), a waiting consumer re-asks every source at every poll timeout (C06_waiting_consumer_asks); the connection handshake step by step (C06_first_contact_not_counted, C06_owed_hello_is_paid, C06_hello_marks_source_heard, C06_heard_consumer_is_registered); machines compared with the real classes; '
         'kill/restart of every filter of a real pipeline at random scheduling steps with restart delays around the connection timeout explored in pipeline mode (flow resumes, ordering kept).',
    note=PROTO_NOTE + ' The handshake is proved step by step on both machines; its convergence over the network model (HELLO delivered before the next request is sent), edge progress and deadlock freedom are not proved (partial).',
    technique='Coq proof (local healing lemmas) + differential correspondence + pipeline-mode fault exploration', ref='§5, §6 C06')
